@@ -2,7 +2,7 @@
    Statements only; proofs in Proofs/{LogicProofs,SortProofs,RestoreProofs}.v. *)
 From Coq Require Import Permutation Sorted.
 From TV Require Import Prelude.Str Prelude.PosixPath Prelude.SortStable Logic.PyInt Logic.Indexes Logic.Scope
-  Prog.Prog Cmd.Restore Proofs.ProgProofs Proofs.LogicProofs Proofs.SortProofs Proofs.RestoreProofs World.World Proofs.WorldProofs Proofs.WorldRestore Proofs.SortSorted.
+  Prog.Prog Cmd.Restore Proofs.ProgProofs Proofs.LogicProofs Proofs.SortProofs Proofs.RestoreProofs World.World Proofs.WorldProofs Proofs.WorldRestore Proofs.SortSorted Proofs.Independence Proofs.ListingOverwrite Proofs.ChosenMovesOne Proofs.ChosenMoves.
 Open Scope Z_scope.
 
 (* scope: an entry is offered iff the requested directory is "/", or is the entry's location itself, or the
@@ -64,6 +64,40 @@ Theorem restore_without_selection_changes_nothing : forall o,
                                   forall s s', wrun s t s' -> same s s') (restore_main o).
 Proof. exact restore_without_selection_lemma. Qed.
 Print Assumptions restore_without_selection_changes_nothing.
+
+(* ---- --overwrite is not read before the selection: whatever the flag says, a run of trash-restore is a run of [offered o] - scan, scope,
+   sort: a program in which the flag does not occur - followed by [after_listing b files], where listing and numbering are a function
+   of the offered entries alone and the flag reaches only [restore_selected] (ListingOverwrite.v) ---- *)
+Theorem listing_does_not_depend_on_overwrite : forall o b t out,
+  run_of (restore_main (with_overwrite o b)) t out <-> run_of (bind (offered o) (after_listing b)) t out.
+Proof. exact listing_does_not_depend_on_overwrite_lemma. Qed.
+Print Assumptions listing_does_not_depend_on_overwrite.
+
+(* ---- exactly the entries printed at the chosen indices: line i of the listing shows entry i of the offered list; every Move of the
+   run is the Move (payload -> recorded location) of an entry whose index the typed reply denotes, in the order of the reply, one per
+   index, up to the first entry that is refused or fails; when the command ends with status 0, all of them (ChosenMoves.v) ---- *)
+Theorem listing_shows_entry_i_on_line_i : forall l i t, run_of (print_listing i l) t (Done tt) ->
+  map fst t = map (fun p => Out false (line (fst p) (snd p))) (combine (seq i (length l)) l).
+Proof. intros l i t H. exact (proj2 (run_print_listing l i t _ H) eq_refl). Qed.
+Print Assumptions listing_shows_entry_i_on_line_i.
+
+Theorem restored_are_the_chosen : forall ow files t out,
+  run_of (after_listing ow files) t out ->
+  moves_of t = [] \/
+  exists reply idxs n, In (Input (prompt files), RStr reply) t /\
+    parse_indexes reply (Z.of_nat (length files)) = Selected idxs /\
+    moves_of t = map mv (firstn n (chosen files idxs)) /\
+    (out = Done 0%N -> moves_of t = map mv (chosen files idxs)).
+Proof. exact restored_are_the_chosen_lemma. Qed.
+Print Assumptions restored_are_the_chosen.
+
+Example chosen_follows_the_reply : forall a b c, chosen [a; b; c] [2; 0; 2] = [c; a; c] /\ chosen [a; b; c] [] = [].
+Proof. intros. split; reflexivity. Qed.
+
+Example with_overwrite_sets_the_flag_only : forall o b,
+  ro_overwrite (with_overwrite o b) = b /\ ro_sort (with_overwrite o b) = ro_sort o /\ ro_path (with_overwrite o b) = ro_path o
+  /\ with_overwrite o (ro_overwrite o) = o.
+Proof. intros [p s td ow e u] b. repeat split. Qed.
 
 (* ---- non-vacuity ---- *)
 Example prefix_sibling_not_in_scope : matches_path ($"/a/foobar") ($"/a/foo") = false /\ matches_path ($"/a/foo/x") ($"/a/foo") = true.
